@@ -1352,14 +1352,27 @@ func c11Exec(scAny any, c *simcheck.Ctx) *simcheck.Violation {
 				if l := lowered(); l != "" {
 					return simcheck.V("upgrade-lowers", "%s: upgrading %s lowered %s", what, qpath, l)
 				}
-				if query == "" || query == "latest" {
-					// the get adds a requirement on the latest version; unless that is below the
-					// version in use (a lowering request) the build list holds at least that
+				{
+					// "the build list contains the resolved version": the get adds a requirement on
+					// the version the query denotes; unless that is below the version in use (a
+					// lowering request) the build list holds at least that version
 					// (path@v0 and path@v1 both mean "the latest v0 or v1 version": dawn cleans the
 					// path before it derives the major version to match)
 					want := sc.resolveQuery(qpath, query)
+					switch {
+					case query == "upgrade" && had:
+						if l := sc.resolveQuery(qpath, "latest"); l != "" && semver.Compare(l, ov) > 0 {
+							want = l
+						}
+					case query == "patch" && had:
+						// the highest version with the major.minor in use
+						want = sc.resolveQuery(qpath, ">="+ov+"|"+semver.MajorMinor(ov))
+					}
 					if want != "" && (!had || semver.Compare(want, ov) >= 0) && semver.Compare(nv, want) < 0 {
-						return simcheck.V("get-wrong-version", "%s: the latest version of %s is %s but the new build list has it at %s", what, qpath, want, nv)
+						return simcheck.V("get-wrong-version", "%s: the query denotes %s@%s but the new build list has the project at %s", what, qpath, want, nv)
+					}
+					if want != "" {
+						c.St.Count("gets_checked_against_the_resolved_version", 1)
 					}
 				}
 				if query == "upgrade" && had && semver.Compare(nv, ov) < 0 {
@@ -1442,6 +1455,10 @@ func (sc *e4Scenario) resolveQuery(qpath, query string) string {
 		return ""
 	case query == "upgrade" || query == "patch":
 		return ""
+	case strings.HasPrefix(query, ">=") && strings.Contains(query, "|"):
+		// (internal) at or above a version, within one major.minor
+		f := strings.SplitN(query[2:], "|", 2)
+		accept = func(v string) bool { return semver.Compare(v, f[0]) >= 0 && semver.MajorMinor(v) == f[1] }
 	case strings.HasPrefix(query, ">="):
 		accept = func(v string) bool { return semver.Compare(v, query[2:]) >= 0 }
 	case strings.HasPrefix(query, ">"):
